@@ -722,6 +722,15 @@ class Unit:
             if c is not None:
                 self.fn_contracts[key + '::' + mname] = c
 
+    def pin(self, src, key, sha=None, contains=None):
+        """Trusted-base anchor: the body of an item that is NOT verified (an unsafe primitive behind an
+        external_body stub, the thread_local read of R5) must be exactly the text the trust argument was
+        written for. A different text raises AnchorLost (=> the bounded fallback / exit 2, never a pass)."""
+        e = Entry(src, key, None, kind='pin')
+        e.sha = sha
+        e.contains = contains
+        self.entries.append(e)
+
     def trait(self, src, key, methods=None, ghost=None):
         """Include a trait declaration; methods: {fn name: Contract}; ghost: extra text (spec fn decls)."""
         e = Entry(src, key, methods, kind='trait')
@@ -766,6 +775,15 @@ class Unit:
                 raise AnchorLost('item not found in expansion of %s: %s' % (e.src, e.key))
             if isinstance(it, list) and e.kind != 'inherent':
                 raise AnchorLost('ambiguous item key: %s' % e.key)
+            if e.kind == 'pin':
+                norm = rsx.ws_norm(strip_attrs_and_comments(it.text))
+                h = hashlib.sha256(norm.encode()).hexdigest()[:16]
+                if e.sha is not None and h != e.sha:
+                    raise AnchorLost('trusted (unverified) item %s changed: sha %s, pinned %s' % (e.key, h, e.sha))
+                if e.contains is not None and e.contains not in norm:
+                    raise AnchorLost('trusted (unverified) item %s no longer contains %r' % (e.key, e.contains))
+                meta.setdefault('pinned', {})[e.key] = h
+                continue
             if e.kind == 'item':
                 t = rewrite_body(strip_attrs_and_comments(it.text))
                 if it.kind in ('struct', 'enum'):
